@@ -15,6 +15,10 @@ SOAP = ('<soapenv:Envelope xmlns:soapenv="http://schemas.xmlsoap.org/soap/envelo
         '</soapenv:Envelope>')
 
 
+MSG = {'absent': None, False: None, True: 'something went wrong', 'text': 'something went wrong', 'empty': '',
+       'multiline': 'something\n   went\n wrong', 'nonascii': 'nĂĽt güt   不行'}
+
+
 def build_response(scn):
     body = ''
     if scn['asrt'] == 'signed':
@@ -27,7 +31,7 @@ def build_response(scn):
     if scn['pre'] == 'foreigndest':
         r['destination'] = 'https://evil.example/acs'
     r['status'] = sb.status_xml(scn['top'], None if scn['second'] == 'absent' else scn['second'],
-                                'something went wrong' if scn['msg'] else None)
+                                MSG[scn['msg']])
     doc = sb.response(r, body)
     if scn['asrt'] == 'signed':
         doc = sb.sign(doc, sb.NS_SAML, 'Assertion', 'a1', 'kIdp1')
@@ -54,7 +58,7 @@ def replay(case):
         doc = ('<samlp:LogoutResponse xmlns:samlp="%s" xmlns:saml="%s" ID="lr1" Version="%s" IssueInstant="%s" InResponseTo="id1">'
                '<saml:Issuer>%s</saml:Issuer>%s</samlp:LogoutResponse>'
                % (sb.NS_SAMLP, sb.NS_SAML, scn['version'], env.ts(spc.now() - 5), env.IDP1,
-                  sb.status_xml(scn['top'], None if scn['second'] == 'absent' else scn['second'], 'something went wrong' if scn['msg'] else None)))
+                  sb.status_xml(scn['top'], None if scn['second'] == 'absent' else scn['second'], MSG[scn['msg']])))
         obs = {'doc': doc, 'exc': None, 'calls': [], 'verdict': 'reject'}
         try:
             if scn['via'] == 'soap':
